@@ -108,7 +108,10 @@ type Frame struct {
 	defers   []*ssa.Defer
 	retPos    token.Pos
 	preGhost  *Ghost
+	callWitness map[string]SV
 	curBlock  *ssa.BasicBlock
+	ghostVals map[string]SV // loop ghost variables (value at the loop header)
+	boundTypes map[string]types.Type
 	tails     map[*ssa.BasicBlock]int
 	noTailSplit bool
 	callOrd   map[*ssa.Call]int
@@ -164,7 +167,7 @@ func isIdentByte(c byte) bool {
 
 func (e *Engine) newFrame(fn *ssa.Function, con *Contract, top bool, depth int) *Frame {
 	f := &Frame{e: e, fn: fn, con: con, top: top, depth: depth, loopOf: map[*ssa.BasicBlock]*loopInfo{},
-		nodes: map[string]*xnode{}, names: map[string][]ssa.Value{}, counters: map[string]int{},
+		nodes: map[string]*xnode{}, names: map[string][]ssa.Value{}, counters: map[string]int{}, boundTypes: map[string]types.Type{},
 		loopEntry: map[*loopInfo]*Mem{}, decHead: map[*loopInfo]*Term{}}
 	f.findLoops()
 	for _, b := range fn.Blocks {
@@ -768,8 +771,17 @@ func (f *Frame) cutLoop(n *xnode, li *loopInfo, st *execState) {
 			f.oblige(st, "invariant", fmt.Sprintf("L%d.rangeindex.entry", li.ordinal), st.reach, f.rangeInv(st.env, phi, v), li.header.Instrs[0].Pos(), "range index starts at -1, below the length")
 		}
 	}
-	// 1. invariant on entry
+	// 1. invariant on entry (ghost variables have their initial values)
 	if li.spec != nil {
+		if f.ghostVals == nil {
+			f.ghostVals = map[string]SV{}
+		}
+		for _, g := range li.spec.Ghosts {
+			gsc := f.scopeAt(st, nil)
+			gsc.goal = false
+			gsc.what = g.Init.Text
+			f.ghostVals[g.Name] = gsc.coerceParam(gsc.eval(g.Init.Expr), g.Type, "ghost "+g.Name)
+		}
 		sc := f.scopeAt(st, nil)
 		for _, inv := range li.spec.Inv {
 			sc.goal = true
@@ -810,13 +822,43 @@ func (f *Frame) cutLoop(n *xnode, li *loopInfo, st *execState) {
 		st.gh = e.freshGhost(fmt.Sprintf(".L%d", li.ordinal))
 	}
 	st.st.cut = true
-	// 3. assume invariant
+	// 3. assume invariant (ghost variables are arbitrary values satisfying it)
 	if li.spec != nil {
+		for _, g := range li.spec.Ghosts {
+			ty, ok := specTypes[g.Type]
+			if !ok {
+				panic(specError{"ghost variable " + g.Name + ": unsupported type " + g.Type})
+			}
+			f.ghostVals[g.Name] = SV{k: kInt, t: tb.Fresh(fmt.Sprintf("ghost.%s.L%d", g.Name, li.ordinal), BV(ty.w)), signed: ty.signed}
+		}
+		// definitional loop-carried values
+		for _, d := range li.spec.Defs {
+			dsc := f.scopeAt(st, nil)
+			dsc.goal = false
+			dsc.what = d.Val.Text
+			dv := dsc.eval(d.Val.Expr)
+			done := false
+			for _, phi := range phis {
+				if phi.Comment == d.Name {
+					switch {
+					case dv.k == kVal:
+						st.env[phi] = dv.v
+					case dv.k == kInt:
+						st.env[phi] = Scalar{dsc.toInt(dv, bitsOf(phi.Type()), isSigned(phi.Type()))}
+					case dv.k == kUntyped:
+						st.env[phi] = Scalar{tb.Const(dv.c, bitsOf(phi.Type()))}
+					}
+					done = true
+				}
+			}
+			if !done {
+				panic(specError{"loop define: no loop-carried variable " + d.Name})
+			}
+		}
 		sc := f.scopeAt(st, nil)
 		sc.loopEntryMem = f.loopEntry[li]
 		for _, iv := range li.spec.Inv {
-			sc.goal = false
-			e.assume(tb.Implies(st.reach, e.evalBool(sc, iv.Expr, iv.Text)))
+			e.assumeClause(sc, iv.Expr, iv.Text, st.reach)
 		}
 		if li.spec.Decreases != nil {
 			sc.goal = false
@@ -906,6 +948,30 @@ func (f *Frame) backEdge(n *xnode, li *loopInfo, st *execState, cond *Term) {
 		}
 		over[phi] = f.operand(st.env, phi.Edges[idx])
 	}
+	// ghost variables take their updated values (computed in the state at the
+	// back edge, with the header values of all ghosts)
+	saved := map[string]SV{}
+	if len(li.spec.Ghosts) > 0 {
+		// loop variables denote their values at the loop head; next(x) is
+		// the value flowing along the back edge
+		usc := f.scopeAt(st, nil)
+		usc.nextLookup = f.scopeAt(st, over).golookup
+		next := map[string]SV{}
+		for _, g := range li.spec.Ghosts {
+			usc.goal = false
+			usc.what = g.Update.Text
+			next[g.Name] = usc.coerceParam(usc.eval(g.Update.Expr), g.Type, "ghost "+g.Name)
+		}
+		for k, v := range next {
+			saved[k] = f.ghostVals[k]
+			f.ghostVals[k] = v
+		}
+	}
+	defer func() {
+		for k, v := range saved {
+			f.ghostVals[k] = v
+		}
+	}()
 	sc := f.scopeAt(st, over)
 	sc.loopEntryMem = f.loopEntry[li]
 	st2 := *st
@@ -978,6 +1044,9 @@ func (f *Frame) execBlock(n *xnode, st *execState) {
 				f.atCall(st, call)
 			}
 			v := f.execValue(n, st, x)
+			if call, ok := x.(*ssa.Call); ok && f.con != nil && len(f.con.Afters) > 0 && v != nil {
+				f.afterCall(st, call, v)
+			}
 			if v != nil {
 				st.env[x] = v
 				if watch[f.fn.Name()+":"+x.Name()] {
@@ -990,6 +1059,67 @@ func (f *Frame) execBlock(n *xnode, st *execState) {
 			panic(fmt.Sprintf("%s: unsupported instruction %T", f.fn.Name(), ins))
 		default:
 			panic(fmt.Sprintf("%s: unsupported instruction %T", f.fn.Name(), ins))
+		}
+	}
+}
+
+// ghostKey is the environment key of a name bound by an "after call" clause.
+type ghostKey struct{ name string }
+
+func (ghostKey) Name() string                  { return "ghost" }
+func (ghostKey) String() string                { return "ghost" }
+func (ghostKey) Type() types.Type              { return nil }
+func (ghostKey) Parent() *ssa.Function         { return nil }
+func (ghostKey) Referrers() *[]ssa.Instruction { return nil }
+func (ghostKey) Pos() token.Pos                { return token.NoPos }
+
+func (f *Frame) afterCall(st *execState, call *ssa.Call, v Val) {
+	f.atCallOrdinals()
+	name := calleeName(call)
+	for _, ac := range f.con.Afters {
+		if ac.Callee != name || ac.Nth != f.callOrd[call] {
+			continue
+		}
+		var rv Val = v
+		var rt types.Type = call.Type()
+		if tv, ok := v.(TupleV); ok {
+			if ac.Result >= len(tv.Elems) {
+				panic(specError{"after call: no such result"})
+			}
+			rv = tv.Elems[ac.Result]
+			rt = call.Type().(*types.Tuple).At(ac.Result).Type()
+		}
+		st.env[ghostKey{ac.Name}] = rv
+		f.boundTypes[ac.Name] = rt
+	}
+}
+
+func calleeName(call *ssa.Call) string {
+	switch c := call.Call.Value.(type) {
+	case *ssa.Function:
+		return c.Name()
+	case *ssa.Builtin:
+		return c.Name()
+	}
+	if call.Call.IsInvoke() {
+		return call.Call.Method.Name()
+	}
+	return ""
+}
+
+func (f *Frame) atCallOrdinals() {
+	if f.callOrd != nil {
+		return
+	}
+	f.callOrd = map[*ssa.Call]int{}
+	cnt := map[string]int{}
+	for _, b := range f.fn.Blocks {
+		for _, ins := range b.Instrs {
+			if c, ok := ins.(*ssa.Call); ok {
+				n := calleeName(c)
+				cnt[n]++
+				f.callOrd[c] = cnt[n]
+			}
 		}
 	}
 }
